@@ -431,17 +431,21 @@ func runBlock(a hx.Args) (string, bool) {
 			case <-s.lastSeen:
 			case <-done:
 				return
-			case <-time.After(5 * time.Second):
+			case <-hx.After(5 * time.Second):
 				return
 			}
-			deadline := time.Now().Add(5 * time.Second)
-			for !handlerParkedInReceive() && time.Now().Before(deadline) {
+			stop := false
+			hx.Until(5*time.Second, func() bool {
 				select {
 				case <-done:
-					return
+					stop = true
+					return true
 				default:
-					time.Sleep(20 * time.Microsecond)
 				}
+				return handlerParkedInReceive()
+			})
+			if stop {
+				return
 			}
 			bd.Cancel(ctx)
 		} else if cend {
